@@ -663,7 +663,8 @@ def run_executions(exe, args_of, total, out_path, timeout=900, env=None, max_res
         else:
             deaths.append({"rc": rc, "err": err, "index": start + max(nnew - 1, 0), "lines": lines[last_new:]})
             start += max(nnew, 1)
-        if len(deaths) >= max_restarts:
+        # (a harness that stopped on its watchdog - status 86 - found a call that does not return: one is enough)
+        if len(deaths) >= max_restarts or any(x["rc"] == 86 for x in deaths):
             break
     if os.path.exists(tmp):
         os.unlink(tmp)
@@ -674,7 +675,7 @@ def death_diag(name, d):
     err = d["err"]
     summ = ""
     for ln in err.splitlines():
-        if "ERROR: AddressSanitizer" in ln or "runtime error" in ln or "TIMEOUT" in ln or "LeakSanitizer" in ln or "ThreadSanitizer" in ln:
+        if "ERROR: AddressSanitizer" in ln or "runtime error" in ln or "TIMEOUT" in ln or "VH-WATCHDOG" in ln or "LeakSanitizer" in ln or "ThreadSanitizer" in ln:
             summ = ln.strip()
             break
     if not summ:
